@@ -198,3 +198,135 @@ _base_scn_o = scenarios
 
 def scenarios():
     return _base_scn_o() + [own_signatures(p, prim) for p in ('self_signatures', 'revocation_signatures') for prim in (True, False)]
+
+
+def add_uid(selfsign):
+    """PGPKey.add_uid: the identity is attached to this key, self-certified first (positive certification with the caller's preferences)"""
+    label = 'C15/PGPKey.add_uid[%s]' % ('self-signed' if selfsign else 'not self-signed')
+
+    def gen(repo):
+        r = scn.Run(repo, KEY, 'add_uid', label)
+        ex, st = r.ex, r.st
+        me, uid = E.VObj(KEY, 'key'), E.VObj(UID, 'uid')
+        CERT = E.VObj(SIG, 'selfcert')
+        refuse = z3.Bool('certification_is_refused')
+
+        def certify(ex, st, o, a, kws):
+            st.ghost['events'] = st.ghost.get('events', ()) + (('certify', a, dict(kws), st.heap.get(('uid', '__parent'))),)
+            bad = st.clone()
+            st.pc.append(z3.Not(refuse))
+            bad.pc.append(refuse)
+            return [(st, CERT), (bad, E.Raise('PGPError', 0))]
+        certify.wants_kws = True
+        r.hook(KEY, 'certify', scn.method_hook(certify))
+
+        def ior(name):
+            def h(ex, st, o, a):
+                st.ghost['events'] = st.ghost.get('events', ()) + ((name, o.ref, a[0]),)
+                return [(st, o)]
+            return h
+        r.hook(UID, '__or__', scn.method_hook(ior('uid|=')))
+        r.hook(KEY, '__or__', scn.method_hook(ior('key|=')))
+        PREF = E.VExt('preferences', ())
+        ST = repo.enum_members('pgpy.constants.SignatureType')
+        for pi, (s, v) in enumerate(r.call(me, [uid, E.VBool(selfsign)], {'hashes': PREF})):
+            ev = s.ghost.get('events', ())
+            if isinstance(v, E.Raise):
+                r.oblige(s, 'fails-only-when-the-self-certification-is-refused,and-then-the-identity-is-not-on-the-key/p%d' % pi,
+                         z3.And(z3.BoolVal(selfsign and v.exc.split(':')[0] == 'PGPError' and not any(e[0] == 'key|=' for e in ev)), refuse), v.where)
+                continue
+            kinds = [e[0] for e in ev]
+            if selfsign:
+                r.oblige(s, 'certified(positive,caller-preferences,already-linked-to-this-key),certificate-attached,then-the-identity-added/p%d' % pi,
+                         z3.BoolVal(kinds == ['certify', 'uid|=', 'key|='] and ev[0][1][0] is uid and ev[0][2].get('hashes') is PREF
+                                    and isinstance(ev[0][3], E.VExt) and ev[0][3].args[0] is me and ev[1][2] is CERT and ev[2][2] is uid))
+                r.oblige(s, 'positive-certification/p%d' % pi, ex.as_int(ev[0][1][1]) == ST['Positive_Cert'] if kinds[:1] == ['certify'] else z3.BoolVal(False))
+            else:
+                r.oblige(s, 'added-without-a-certificate/p%d' % pi, z3.BoolVal(kinds == ['key|='] and ev[0][2] is uid))
+        return r.result()
+    return Scenario(label, KEY + '.add_uid', gen, props=('C15', 'C16'))
+
+
+def add_subkey():
+    """PGPKey.add_subkey: refusals, conversion to a subkey packet, binding, and no unbound subkey left behind when binding is refused (D32)"""
+    label = 'C15/PGPKey.add_subkey'
+    PRIM, SUBP = 'pgpy.packet.packets.PrivKeyV4', 'pgpy.packet.packets.PrivSubKeyV4'
+
+    def gen(repo):
+        r = scn.Run(repo, KEY, 'add_subkey', label)
+        ex, st = r.ex, r.st
+        me, new = E.VObj(KEY, 'key'), E.VObj(KEY, 'new')
+        pub_me, pub_new, new_primary, new_has_children, refuse = z3.Bools('this_key_is_public new_key_is_public new_key_is_primary new_key_has_subkeys binding_is_refused')
+        r.hook(KEY, 'is_public', lambda ex, st, o, a: [(st, E.VBool(pub_me if o.ref == 'key' else pub_new))])
+        r.hook(KEY, 'is_primary', lambda ex, st, o, a: [(st, E.VBool(new_primary))])
+        kids = E.VDict([])
+        r.set('key', '_children', kids)
+        r.set('new', '_children', E.VObj('abstract:children', 'new-children'))
+        r.hook('abstract:children', '__len__', scn.method_hook(lambda ex, st, o, a: [(st, E.VInt(z3.If(new_has_children, 1, 0)))]))
+        oldpkt = E.VObj(PRIM, 'oldpkt')
+        r.set('new', '_key', oldpkt)
+        ALG, CREATED, MATERIAL = E.VInt(22, enum='pgpy.constants.PubKeyAlgorithm'), E.VExt('datetime', ()), E.VObj('pgpy.packet.fields.EdDSAPriv', 'material')
+        r.hook('pgpy.packet.fields.EdDSAPriv', '__call__', lambda ex, st, c, a: [(st, E.VObj('pgpy.packet.fields.EdDSAPriv', 'fresh-empty-material'))])
+        r.hook('pgpy.packet.types.VersionedPacket', '__init__', scn.mconst(E.VNone()))
+        r.hook('pgpy.packet.types.Packet', '__init__', scn.mconst(E.VNone()))
+        for f, val in (('pkalg', ALG), ('created', CREATED), ('keymaterial', MATERIAL)):
+            r.hook(PRIM, f, (lambda val: lambda ex, st, o, a: [(st, val)])(val))
+        r.hook(SUBP, '__call__', lambda ex, st, c, a: [(st, E.VObj(SUBP, 'subpkt'))])
+        for f in ('pkalg', 'created', 'keymaterial'):
+            pass
+        r.hook(SUBP, 'update_hlen', scn.mconst(E.VNone()))
+        KEYID = E.VStr(z=z3.Const('NEW_KEY_ID', E.BYTES))
+        r.hook(KEY, 'fingerprint', lambda ex, st, o, a: [(st, E.VObj('pgpy.types.Fingerprint', 'fp-' + o.ref))])
+        r.hook('pgpy.types.Fingerprint', 'keyid', scn.const(KEYID))
+        BSIG = E.VObj(SIG, 'binding')
+
+        def bind(ex, st, o, a, kws):
+            ch = st.heap.get(('key', '_children'))
+            st.ghost['at_bind'] = ([k for k, _ in ch.of(st)] if isinstance(ch, E.VDict) else None, st.heap.get(('new', '__parent')), a, dict(kws))
+            bad = st.clone()
+            st.pc.append(z3.Not(refuse))
+            bad.pc.append(refuse)
+            return [(st, BSIG), (bad, E.Raise('PGPError', 0))]
+        bind.wants_kws = True
+        r.hook(KEY, 'bind', scn.method_hook(bind))
+
+        def ior(ex, st, o, a):
+            st.ghost['attached'] = st.ghost.get('attached', ()) + ((o.ref, a[0]),)
+            return [(st, o)]
+        r.hook(KEY, '__or__', scn.method_hook(ior))
+        USAGE = E.VExt('usage-flags', ())
+        for pi, (s, v) in enumerate(r.call(me, [new], {'usage': USAGE})):
+            ch = s.heap.get(('key', '_children'))
+            keys_now = [k for k, _ in ch.of(s)] if isinstance(ch, E.VDict) else None
+            par = s.heap.get(('new', '__parent'))
+            if isinstance(v, E.Raise):
+                r.oblige(s, 'refused(PGPError)-only-for:public-key,public-new-key,new-key-with-subkeys,or-a-refused-binding/p%d' % pi,
+                         z3.And(z3.BoolVal(v.exc.split(':')[0] == 'PGPError'), z3.Or(pub_me, pub_new, z3.And(new_primary, new_has_children), refuse)), v.where)
+                r.oblige(s, 'after-a-refusal-the-new-key-is-neither-listed-as-a-subkey-nor-linked-to-this-key/p%d' % pi,
+                         z3.BoolVal(keys_now == [] and (par is None or isinstance(par, E.VNone)) and not s.ghost.get('attached')))
+                continue
+            r.oblige(s, 'accepted=>private-key,private-new-key-without-subkeys-of-its-own,binding-made/p%d' % pi,
+                     z3.And(z3.Not(pub_me), z3.Not(pub_new), z3.Not(z3.And(new_primary, new_has_children)), z3.Not(refuse)))
+            r.oblige(s, 'listed-under-its-key-id-with-this-key-as-parent/p%d' % pi,
+                     z3.BoolVal(keys_now is not None and len(keys_now) == 1 and keys_now[0] is KEYID and isinstance(par, E.VExt) and par.args[0] is me))
+            ab = s.ghost.get('at_bind')
+            r.oblige(s, 'bound-after-being-listed-and-linked,with-the-caller-options/p%d' % pi,
+                     z3.BoolVal(ab is not None and ab[0] is not None and len(ab[0]) == 1 and isinstance(ab[1], E.VExt) and ab[2][0] is new and ab[3].get('usage') is USAGE))
+            att = s.ghost.get('attached', ())
+            r.oblige(s, 'the-binding-signature-is-attached-to-the-new-subkey/p%d' % pi, z3.BoolVal(len(att) == 1 and att[0][0] == 'new' and att[0][1] is BSIG))
+            pk = s.heap.get(('new', '_key'))
+            r.oblige(s, 'a-primary-key-packet-is-converted-to-a-subkey-packet-with-the-same-algorithm,time-and-material/p%d' % pi,
+                     z3.If(new_primary,
+                           z3.BoolVal(isinstance(pk, E.VObj) and pk.ref == 'subpkt' and isinstance(s.heap.get(('subpkt', '_pkalg')), E.VInt)
+                                      and s.heap[('subpkt', '_pkalg')].conc() == 22 and s.heap.get(('subpkt', '_created')) is CREATED
+                                      and s.heap.get(('subpkt', 'keymaterial')) is MATERIAL),
+                           z3.BoolVal(pk is oldpkt)))
+        return r.result()
+    return Scenario(label, KEY + '.add_subkey', gen, props=('C15', 'C16'))
+
+
+_base_scn_au = scenarios
+
+
+def scenarios():
+    return _base_scn_au() + [add_uid(True), add_uid(False), add_subkey()]
